@@ -120,8 +120,11 @@ package extension
 //@   ensures #iff: result <==> evictEnabled(pod)
 //@   modifies nothing
 
-// Implicit eviction priority 0 when the annotation is missing; 0 together with an error when it is invalid.
+// Implicit eviction priority 0 when the annotation is missing; 0 together with an error when it is invalid. A value
+// outside the int32 range is invalid, never wrapped: every integer conversion carries an overflow obligation
+// (option arith checked), discharged by the range of a successful 32-bit strconv.ParseInt (extern in /verif/lib/C12.spec).
 //@ func GetPodEvictionPriority [C11]
+//@   option arith checked
 //@   ensures #unset: pod == nil || pod.ObjectMeta.Annotations == nil || !has(pod.ObjectMeta.Annotations, AnnotationPodEvictionPriority) ==> result0 == 0 && result1 == nil
 //@   ensures #invalid: result1 != nil ==> result0 == 0
 //@   modifies nothing
